@@ -245,6 +245,30 @@ def run(rep, facts, tier):
         rep.check(ok, 'R02.4', 'handle_heartbeat_msg/answers', 'missing numbers or a non-final HEARTBEAT => ACKNACK sent',
                   'a HEARTBEAT that shows missing samples (or is not final) is not always answered with an ACKNACK', c.where())
 
+    # ------------------------------------------------------------ R02.6
+    rep.rule('R02.6', 'a pushed sample stays requested until it is acknowledged: RtpsReaderProxy::mark_change_sent is called only by the repair worker (answering an ACKNACK), the unsent set is '
+                      'otherwise pruned only by remove_from_unsent_set_all_before (ACKNACK base / history floor), and every new sample is registered with every reader proxy; this leftover '
+                      'entry is what repairs a partially received fragmented sample, because NACKFRAGs are not forwarded to the writer')
+    callers = sorted(set(b.key for b, _bb, _t in fx.callers_of('RtpsReaderProxy::mark_change_sent')))
+    allowed = ('rtps::writer::Writer::handle_repair_data_send_worker',)
+    extra = [c for c in callers if not c.startswith(allowed)]
+    rep.check(bool(callers) and not extra, 'R02.6', 'mark_change_sent/callers', 'called only from the repair worker (%d site(s))' % len(callers),
+              'mark_change_sent is called outside the repair worker (%s): a sample pushed once is forgotten before the reader acknowledged it; if some of its fragments were lost, '
+              'the next ACKNACK finds nothing to repair, repair mode is switched off and the sample is never completed' % ', '.join(extra), '')
+    pw = fx.find('rtps::writer::Writer::process_writer_command')
+    rep.analysed(pw)
+    ogp = Origins(pw, summaries=False)
+    reg = [(bb, t) for bb, t in pw.calls() if callee_res(t).endswith('RtpsReaderProxy::notify_new_cache_change')]
+    ok_reg = False
+    for bb, t in reg:
+        recv = ogp.of_operand(t['args'][0], bb, 'term')
+        # the receiver is the item of an iteration over self.readers (values_mut / iter_mut), not a filtered subset
+        it_all = term_has(recv, lambda x: x[0] == 'call' and x[1].endswith('::next')) and term_has(recv, lambda x: x[0] == 'field' and x[1] == 'readers') and \
+            not term_has(recv, lambda x: x[0] == 'call' and x[1].rsplit('::', 1)[-1] in ('filter', 'take', 'skip', 'take_while', 'filter_map', 'find'))
+        ok_reg = ok_reg or it_all
+    rep.check(ok_reg, 'R02.6', 'process_writer_command/registered-with-all-readers', 'notify_new_cache_change for every element of self.readers',
+              'a new sample is not registered as unsent with every reader proxy', pw.where())
+
     # ------------------------------------------------------------ R02.5 (shared with C01 R01.6 / C03 R03.6)
     rep.rule('R02.5', 'GAP bookkeeping at the reader: an exclusive "..._before" bound (gapList.base, HEARTBEAT.first) used as the end of an inclusive range is decremented; otherwise a sample the '
                       'writer still holds is marked unavailable, never requested and acknowledged: the pair goes quiet with the sample missing for good')
